@@ -48,13 +48,18 @@ package tagstree
 //@   safe
 //@   ensures result == (uint64(off) + uint64(n) <= uint64(len(buf)))
 //@ end
+// (ghost ttFileSize: the size the file reported when the window was checked)
+//@ ghostdecl ttFileSize int
 //@ func (*TagTreeReader).readTagTreeChunk
 //@   props C18
 //@   requires ttr != nil && ttr.fd != nil
 //@   safe
 //@   ensures [a-chunk-is-exactly-the-requested-window] implies(result1 == nil, len(result0) == int(endOff - startOff) && endOff >= startOff)
+//@   ghostinit ghost(0, "ttFileSize") == 0
+//@   site callret fileInfo.Size #1:
+//@     ghostset ghost(0, "ttFileSize") = result
 //@   site call make #1:
-//@     assert [never-allocates-more-than-the-file-holds] endOff >= startOff && int64(endOff) <= fileInfo.Size()
+//@     assert [never-allocates-more-than-the-file-holds] endOff >= startOff && int64(endOff) <= ghost(0, "ttFileSize") && arg1 == endOff - startOff
 //@ end
 // (also C09: the = / != matcher path over rotated tags trees walks the entries
 // with this cursor arithmetic; a TSID list is skipped or read as exactly 8
